@@ -51,20 +51,25 @@ let rec round_robin (ps : (Datatypes.nat * op list) list) : (Datatypes.nat * op)
 let () =
   iter_lines (fun line ->
       match split_on '\t' line with
-      | ["S"; id; tid; prog; obs] ->
+      | "S" :: id :: tid :: prog :: obs :: rest ->
+        (* inputs of which a SliceReader decode was measured to keep no byte slice: "own" may be observed where the
+           table says "in the input" (the table is a may-alias statement) *)
+        let lean = match rest with [l] -> ints_of_csv l | _ -> [] in
         let t = nat (int_of_string tid) in
         let p = parse_prog prog in
         let model = observe t [] p in
         let obs = if obs = "" then [] else split_on ';' obs in
         if L.length obs <> L.length model then Printf.printf "MISMATCH %s length\n" id
         else begin
-          let bad = ref [] and eff = ref 0 in
+          let bad = ref [] and eff = ref 0 and over = ref 0 in
           L.iteri (fun i (o, (l, ws)) ->
               match split_on '/' o with
               | [cls; alias; changed] ->
                 let ws = L.map int_of_nat ws in
                 let ch = ints_of_csv changed in
-                if cls = "ok" && alias <> alias_string l then
+                let lean_ok = (alias = "own" && (match l with Input k -> L.mem (int_of_nat k) lean | _ -> false)) in
+                if cls = "ok" && lean_ok then incr over;
+                if cls = "ok" && alias <> alias_string l && not lean_ok then
                   bad := Printf.sprintf "op%d:alias observed=%s model=%s" i alias (alias_string l) :: !bad;
                 if not (subset ch ws) then
                   bad := Printf.sprintf "op%d:input written observed=%s model=%s" i changed (csv_of_ints ws) :: !bad;
@@ -72,7 +77,7 @@ let () =
               | _ -> bad := "bad observation" :: !bad)
             (L.combine obs model);
           match !bad with
-          | [] -> Printf.printf "OK %s eff=%d\n" id !eff
+          | [] -> Printf.printf "OK %s over=%d eff=%d\n" id !over !eff
           | b -> Printf.printf "MISMATCH %s %s\n" id (S.concat " " (L.rev b))
         end
       | ["R"; id; mode; progs] ->
